@@ -36,7 +36,7 @@ def run(ctx):
                 must = [(k, errno.ENOSPC, False) for k in range(1, n + 1)]
                 rest = [x for x in sched if x not in must]
                 rng.shuffle(rest)
-                sched = must[:: 2 if (i and i % 2 == 0) else 1] + rest[:25]
+                sched = must[:: 2 if (i and i % 2 == 0 and i != njobs - 1) else 1] + rest[:25]
             for k, e, st in sched:
                 scen.append(fs_drv.faulted(env, drf, cc, ops, "job%d-op%d-%s-%s" % (i, k, errno.errorcode[e], "sticky" if st else "once"), k, e, st))
     fc.account(ctx, scen, "every single-fault schedule of a recording: operation number k (open/create, write, truncate, close, rename, "
